@@ -2,8 +2,6 @@ package c20
 
 import (
 	"fmt"
-	"os"
-	"path/filepath"
 	"strings"
 	"time"
 
@@ -76,6 +74,10 @@ var channels = []channel{
 		B: `header_register_callback(function() { echo "B-header-callback;"; }); echo "b";`},
 	{Name: "autoloaders", Known: "residue:cell:parser.autoload", A: `spl_autoload_register(function($c) { echo "A-autoload:", $c, ";"; }); echo "a";`,
 		B: `echo class_exists('C20Missing2') ? 'y' : 'n';`},
+	{Name: "stream-context-ids", Known: "residue:cell:std/php/stream.nextStreamContextID", A: `$c = stream_context_create(); $d = stream_context_create(); echo "a";`,
+		B: `var_dump(stream_context_create());`},
+	{Name: "time-limit", Known: "residue:cell:std/php/core.executionDeadline", A: `set_time_limit(1); echo "a";`,
+		B: `$t = microtime(true); $n = 0; while (microtime(true) - $t < 1.4) { $n++; } echo "survived";`},
 	{Name: "process-environment", Known: "residue:cell:process.os.Setenv", A: `putenv('C20_ENV_MARK=from-A'); echo "a";`,
 		B: `echo json_encode(getenv('C20_ENV_MARK'));`},
 }
@@ -120,7 +122,7 @@ func (e *env) pairCheck(cases []pairCase, main bool) {
 		}
 	}
 	if len(need) > 0 {
-		e.vmAlone(need, 3)
+		e.vmAlone(need, 2)
 	}
 	var jobs []vmJob
 	var idx []int
@@ -147,6 +149,12 @@ func (e *env) pairCheck(cases []pairCase, main bool) {
 		c.Hit("pair." + pc.A.Origin + "->" + pc.B.Origin)
 		if !r.OK {
 			c.Hit("pair.child-died")
+			if pc.Sig != "" {
+				// B alone completes on a fresh VM; after A the process was ended (os.Exit / fatal): what A left behind did it
+				c.Violation(pc.Sig, fmt.Sprintf("B alone completes (%s), B after A ends the whole process (%s ; %s)", clip(pc.B.vmOutcome.key(false), 200), pc.A.Name, pc.B.Name),
+					repCase{Kind: "pair", P: stripped(pc.B), A: ptr(stripped(pc.A)), Mode: pc.Sig})
+				continue
+			}
 			c.Note("pair %s ; %s: the in-process runner died", pc.A.Name, pc.B.Name)
 			continue
 		}
@@ -215,7 +223,6 @@ func (e *env) pairStream(ok []*prog) {
 // knownStream: the listed residue channels, each with its own probe; a difference confirms the
 // finding (KNOWN-FINDING), no difference means it no longer reproduces.
 func (e *env) knownStream() {
-	os.WriteFile(filepath.Join(e.progDir, "c20_inc.php"), []byte("<?php\nfunction c20_included() { return 'included-fn'; }\necho 'include-ran;';\n"), 0o644)
 	var cases []pairCase
 	for _, ch := range channels {
 		if ch.Known == "" {
